@@ -7,6 +7,8 @@ pub fn dispatch(req: &Value) -> Value {
         "absolute" => absolute(req),
         "import_path" => import_path(req),
         "export_history" => export_history(req),
+        "ts_field_name" => ts_field_name(req),
+        "parse_docs" => parse_docs(req),
         other => json!({"error": format!("unknown op {other}")}),
     }
 }
@@ -158,4 +160,53 @@ pub fn export_history(req: &Value) -> Value {
     let mut files = std::collections::BTreeMap::new();
     read_tree(&root, Path::new(req["collect"].as_str().unwrap_or(".")), &mut files);
     json!({"results": results, "files": files})
+}
+
+// ---------------------------------------------------------------------------------------------------------
+// C04 / C15 lexical oracles
+fn is_ident_like(s: &str) -> bool {
+    let mut it = s.chars();
+    match it.next() { None => return false, Some(c) => if !(c.is_alphabetic() || c == '_' || c == '$') { return false; } }
+    s.chars().all(|c| c.is_alphanumeric() || c == '_' || c == '$')
+}
+/// decode a double-quoted TS string literal; None if it is not exactly one well-formed literal
+fn ts_unquote(s: &str) -> Option<String> {
+    let inner = s.strip_prefix('"')?.strip_suffix('"')?;
+    let mut out = String::new();
+    let mut it = inner.chars();
+    while let Some(c) = it.next() {
+        match c {
+            '"' | '\n' | '\r' => return None,
+            '\\' => match it.next()? { 'n' => out.push('\n'), 'r' => out.push('\r'), '"' => out.push('"'), '\\' => out.push('\\'), _ => return None },
+            c => out.push(c),
+        }
+    }
+    Some(out)
+}
+fn ts_field_name(req: &Value) -> Value {
+    let s = req["s"].as_str().unwrap().to_string();
+    let s2 = s.clone();
+    let actual = catch(move || macrolib::verif_api::raw_name_to_ts_field(s2));
+    match actual {
+        Err(p) => json!({"panic": p, "agree": false}),
+        Ok(a) => {
+            let ok = (is_ident_like(&a) && a == s) || ts_unquote(&a).as_deref() == Some(s.as_str());
+            json!({"actual": a, "agree": ok, "expected": "the name itself if identifier-like, else one string literal denoting it"})
+        }
+    }
+}
+fn parse_docs(req: &Value) -> Value {
+    let lines: Vec<String> = req["docs"].as_array().unwrap().iter().map(|v| v.as_str().unwrap().to_string()).collect();
+    let attrs: Vec<syn::Attribute> = lines.iter().map(|l| syn::parse_quote!(#[doc = #l])).collect();
+    let actual = catch(move || macrolib::verif_api::parse_docs(&attrs).map_err(|e| e.to_string()));
+    match actual {
+        Err(p) => json!({"panic": p, "agree": false}),
+        Ok(Err(e)) => json!({"actual_err": e, "agree": true}),
+        Ok(Ok(a)) => {
+            let ok = if lines.is_empty() { a.is_empty() } else {
+                a.starts_with("/**") && a.ends_with("*/\n") && a.find("*/") == Some(a.len() - 3)
+            };
+            json!({"actual": a, "agree": ok, "expected": "empty, or exactly one block comment: starts with /**, the first */ is the one that ends it"})
+        }
+    }
 }
